@@ -280,6 +280,12 @@ def tagged_loads(s):
     return {'via': 'custom-handler', 'value': json.loads(s)}
 
 
+def make_tagged_loads(tag):
+    def loads(s):
+        return {'via': tag, 'value': json.loads(s)}
+    return loads
+
+
 def same(a, b):
     """Same value and same type (NaN equals NaN, True is not 1, aware datetimes keep their offset)."""
     return type(a) is type(b) and repr(a) == repr(b)
